@@ -47,25 +47,29 @@ DepthsFit(d, f, t, s) ==
   /\ s.os <= Depth(d, f)
   /\ Depth(d, f) - s.os = Depth(d, t) - s.oe
 
-(* Reference refusal rule for joins (stricter than validity, allowed): nodes
-   joined across a seam must have compatible content. *)
-\* open tokens of the slice's start side, outermost first
-SliceOpenStart(s) == [j \in 1..s.os |-> s.toks[j]]
+(* The join rule.  Node.replace descends while both ends lie in the same child and the slice
+   still has to go deeper (StopDepth), and from there joins, level by level, the nodes open at
+   `f` with the nodes open at the start of the slice, and the nodes open at the end of the slice
+   with the nodes open at `t`.  Where the slice is shallower than the position (levels up to
+   extra = depth(f) - openStart) the nodes around `f` stand in for the slice on both sides, so
+   there the ancestors of `t` are joined with the ancestors of `f`.  Two joined nodes must have
+   compatible content ("Cannot join X onto Y"); this is stricter than validity of the splice. *)
 \* types of the nodes open at the end of the slice, outermost first
 SliceOpenEndTypes(s) ==
   LET M == MatchArr(s.toks) IN
   [j \in 1..s.oe |-> s.toks[M[Len(s.toks) - j + 1]].t]
+StopDepth(d, f, t, s) ==
+  LET af == StackAt(d, f)
+      at == StackAt(d, t)
+  IN SetMax({k \in 0..(Len(af) - s.os) : k <= Len(at) /\ \A j \in 1..k : af[j] = at[j]})
 JoinsOK(d, f, t, s) ==
   LET af == StackAt(d, f)
       at == StackAt(d, t)
       df == Len(af)
       dt == Len(at)
-  IN IF Len(s.toks) = 0
-     THEN \* two-way: nodes of f joined with nodes of t below the shared parent
-          LET sd == SharedDepth(d, f, t) IN
-          \A k \in (sd + 1)..df : CompatibleContent(d[at[k]].t, d[af[k]].t)
-     ELSE /\ \A j \in 1..s.os :
-               CompatibleContent(s.toks[j].t, d[af[df - s.os + j]].t)
-          /\ \A j \in 1..s.oe :
-               CompatibleContent(d[at[dt - s.oe + j]].t, SliceOpenEndTypes(s)[s.oe + 1 - j])
+      extra == df - s.os
+      stop == StopDepth(d, f, t, s)
+  IN /\ \A j \in 1..s.os : CompatibleContent(s.toks[j].t, d[af[extra + j]].t)
+     /\ \A k \in (stop + 1)..dt :
+          CompatibleContent(d[at[k]].t, IF k <= extra THEN d[af[k]].t ELSE SliceOpenEndTypes(s)[k - extra])
 =============================================================================
